@@ -25,7 +25,7 @@ func VerifC02_Uplink(ver, nFOpts, fpMode, nFRM int) {
 	verifAssert(err == nil, "SetUplinkDataMIC: no error")
 	verifAssert(p.MIC == MIC(want), "SetUplinkDataMIC: MIC == spec AES-CMAC value")
 
-	carried := verifNondet4("carriedMIC")
+	carried := specCarriedMIC(want)
 	p.MIC = MIC(carried)
 	ok, err := p.ValidateUplinkDataMIC(c02Version(ver), confFCnt, txDR, txCh, AES128Key(fKey), AES128Key(sKey))
 	verifAssert(err == nil, "ValidateUplinkDataMIC: no error")
@@ -50,7 +50,7 @@ func VerifC02_Downlink(ver, nFOpts, fpMode, nFRM int) {
 	verifAssert(err == nil, "SetDownlinkDataMIC: no error")
 	verifAssert(p.MIC == MIC(want), "SetDownlinkDataMIC: MIC == spec AES-CMAC value")
 
-	carried := verifNondet4("carriedMIC")
+	carried := specCarriedMIC(want)
 	p.MIC = MIC(carried)
 	ok, err := p.ValidateDownlinkDataMIC(c02Version(ver), confFCnt, AES128Key(key))
 	verifAssert(err == nil, "ValidateDownlinkDataMIC: no error")
